@@ -28,7 +28,7 @@ pub const NMM: u8 = 1;
 pub const NMM: u8 = NM;
 pub type M = Map<u8, Orswot<u8, u8>, u8>;
 
-#[derive(Clone)]
+#[derive(Clone, Debug)]
 pub struct Uni {
     pub issued: [u64; NAU],
     pub key: [[u8; NCU]; NAU],
@@ -36,7 +36,7 @@ pub struct Uni {
     pub rm_keys: [u8; NR],
     pub rm_ctx: [[u64; NAU]; NR],
 }
-#[derive(Clone)]
+#[derive(Clone, Debug)]
 pub struct Know {
     pub seen: [u64; NAU],
     pub rms: [bool; NR],
@@ -67,6 +67,7 @@ pub fn any_uni(i: &mut In) -> Uni {
         }
         r += 1;
     }
+    vtrace!("universe {:?}", u);
     u
 }
 pub fn any_know(i: &mut In, u: &Uni) -> Know {
@@ -83,6 +84,7 @@ pub fn any_know(i: &mut In, u: &Uni) -> Know {
         k.rms[r] = i.bool();
         r += 1;
     }
+    vtrace!("knowledge {:?}", k);
     k
 }
 pub fn union(k1: &Know, k2: &Know) -> Know {
